@@ -469,9 +469,23 @@ func flips(r *vh.Runner, c *vh.Case, pl, al, sampleN int) {
 			region = "associated-data"
 		}
 		b, _ := kravatte.NewSANSE(key)
-		got, err, pan := open(b, nil, msg, adr)
+		// every fourth rejected message is opened behind data the caller
+		// already holds in dst (with room to append in place): a refused
+		// message must leave that data as it was
+		var dst, held []byte
+		if bit%4 == 1 {
+			held = rng.Bytes(1 + rng.Intn(40))
+			dst = append(make([]byte, 0, len(held)+len(msg)+64), held...)
+		}
+		got, err, pan := open(b, dst, msg, adr)
 		r.Count("evaluations", 1)
 		r.Count("bitflip_opens", 1)
+		if dst != nil && pan == "" {
+			r.Count("bitflip_opens_behind_held_data", 1)
+			if !bytes.Equal(dst[:len(held)], held) {
+				c.Violate("C12:refused-open-alters-data-held-in-dst", map[string]any{"plen": pl, "alen": al, "bit": bit, "held": vh.Hex(held), "now": vh.Hex(dst[:len(held)])})
+			}
+		}
 		if pan != "" {
 			c.Violate("C12:panic:Open", map[string]any{"plen": pl, "alen": al, "bit": bit, "panic": pan})
 		} else if err == nil {
